@@ -32,6 +32,10 @@ func init() {
 					bmp = showGImage(b)
 				}
 				img, err = d.Encode(o...)
+				// the package-level convenience wrapper must give the same image
+				if w, e3 := qrcode.Encode(p, o...); (e3 == nil) != (err == nil) || (err == nil && !sameImage(w, img)) {
+					return "wrapper-differs qrcode.Encode"
+				}
 			}
 		case "mq":
 			o := []microqr.EncodeOptions{microqr.WithLevel(microqr.Level(level)), microqr.WithKanji(kanji), microqr.WithQuietZone(q), microqr.WithModuleSize(s), microqr.WithWidth(width)}
@@ -41,6 +45,9 @@ func init() {
 					bmp = showGImage(b)
 				}
 				img, err = d.Encode(o...)
+				if w, e3 := microqr.Encode(p, o...); (e3 == nil) != (err == nil) || (err == nil && !sameImage(w, img)) {
+					return "wrapper-differs microqr.Encode"
+				}
 			}
 		case "rm":
 			o := []rmqr.EncodeOptions{rmqr.WithLevel(rmqr.Level(level)), rmqr.WithKanji(kanji), rmqr.WithQuietZone(q), rmqr.WithModuleSize(s), rmqr.WithWidth(width)}
@@ -50,6 +57,13 @@ func init() {
 					bmp = showGImage(b)
 				}
 				img, err = d.Encode(o...)
+				if w, e3 := rmqr.Encode(p, o...); (e3 == nil) != (err == nil) || (err == nil && !sameImage(w, img)) {
+					return "wrapper-differs rmqr.Encode"
+				}
+				// the documented size accessors of the version agree with the emitted bitmap
+				if b, e2 := d.EncodeToBitmap(); e2 == nil && (d.Version.Width() != b.Bounds().Dx() || d.Version.Height() != b.Bounds().Dy()) {
+					return fmt.Sprintf("wrapper-differs rmqr.Version.Width/Height %dx%d vs bitmap %dx%d", d.Version.Width(), d.Version.Height(), b.Bounds().Dx(), b.Bounds().Dy())
+				}
 			}
 		default:
 			panic("harness: bad symbology")
@@ -71,4 +85,21 @@ func init() {
 		}
 		return fmt.Sprintf("ok %d %d %v %s | %s", b.Dx(), b.Dy(), gray, hex.EncodeToString(pix), bmp)
 	}
+}
+
+func sameImage(a, b image.Image) bool {
+	if a == nil || b == nil || a.Bounds() != b.Bounds() {
+		return false
+	}
+	r := a.Bounds()
+	for y := r.Min.Y; y < r.Max.Y; y++ {
+		for x := r.Min.X; x < r.Max.X; x++ {
+			r1, g1, b1, a1 := a.At(x, y).RGBA()
+			r2, g2, b2, a2 := b.At(x, y).RGBA()
+			if r1 != r2 || g1 != g2 || b1 != b2 || a1 != a2 {
+				return false
+			}
+		}
+	}
+	return true
 }
